@@ -15,6 +15,7 @@
                               read a frame; rx_filter(header, frame) → return it / go round again
 
   There is no receive queue: nothing but `next_sequence_number` survives a request.
+  `is_ipmc_accessible` (one exchange without the retry loop, `i2cProbe`) is a request too.
 
   `Shape.*` at the end of this file are the four Python functions, statement by statement, each
   annotated with the definition here that mirrors it; the translator regenerates the same values
@@ -122,6 +123,25 @@ def i2cRequest (cfg : I2cCfg) (nextSeq : Nat) (req : Req) (evs : List I2cEvent) 
   let h := mkHdr cfg.slaveAddr req seq
   let r := i2cAttempts cfg h cfg.attempts evs 0
   { nextSeq := seq, out := r.out, tx := List.replicate r.sends (encodeIpmbMsg h req.payload), rest := r.rest }
+
+/-- The request `is_ipmc_accessible(target)` puts on the bus: Get Device ID (netFn App, command 01h)
+to LUN 0 of the target, no data. -/
+def probeReq (rsSa : Nat) : Req := { rsSa := rsSa, netfn := 6, lun := 0, cmd := 1 }
+
+/-- `IpmbDev.is_ipmc_accessible` / `Aardvark.is_ipmc_accessible`: ONE request/response exchange
+(send once, `_receive_raw` once; an IpmiTimeoutError / IOError goes to the caller, who polls).
+`inc = true` is the repaired source (fixes/C04-4.diff): the probe advances the sequence number like
+every other request; `inc = false` is the source as shipped: it goes out with the number of the
+request before it.  `out = .ok []` stands for `return True`. -/
+def i2cProbe (cfg : I2cCfg) (inc : Bool) (nextSeq : Nat) (rsSa : Nat) (evs : List I2cEvent) : I2cStep :=
+  let seq := if inc then i2cIncSeq nextSeq else nextSeq
+  let h := mkHdr cfg.slaveAddr (probeReq rsSa) seq
+  let tx := [encodeIpmbMsg h []]
+  match recvRaw cfg h 0 evs with
+  | .got _ rest => { nextSeq := seq, out := .ok [], tx := tx, rest := rest }
+  | .timeout rest => { nextSeq := seq, out := .timeoutError, tx := tx, rest := rest }
+  | .ioError rest => { nextSeq := seq, out := .pyError "OSError", tx := tx, rest := rest }
+  | .abort e rest => { nextSeq := seq, out := e, tx := tx, rest := rest }
 
 def i2cFramesOf : List I2cEvent → List Frame
   | [] => []
@@ -244,6 +264,27 @@ def aardvarkReceiveRaw : Fun :=
       .assign (.var 8) (.call (.glob .array) args[.chr 66, .list args[.bin .shl (.var 6) (.num 1)]]),
       .assign (.var 2) (.call (.glob .rx_filter) args[.var 0, .bin .add (.var 8) (.var 7)])] py[],
     .ret (.var 7)] }
+
+/-- `is_ipmc_accessible` of ipmb-dev and Aardvark (the two are the same text).
+variables: 0=target (parameter), 1=header -/
+def isIpmcAccessible : Fun :=
+  { params := 1, body := py[
+    -- `i2cProbe … inc = true`: the probe is a request like any other — it takes the NEXT sequence number
+    -- (the pinned source lacked this statement: `inc = false`, the probe repeated the previous number)
+    .expr (.call (.attr .self_ .u_inc_sequence_number) args[]),
+    -- `mkHdr cfg.slaveAddr (probeReq target) seq`: Get Device ID, netFn 6, command 1, LUN 0
+    .assign (.var 1) (.call (.glob .IpmbHeaderReq) args[]),
+    .assign (.attr (.var 1) .netfn) (.num 6),
+    .assign (.attr (.var 1) .rs_lun) (.num 0),
+    .assign (.attr (.var 1) .rs_sa) (.attr (.var 0) .ipmb_address),
+    .assign (.attr (.var 1) .rq_seq) (.attr .self_ .next_sequence_number),
+    .assign (.attr (.var 1) .rq_lun) (.num 0),
+    .assign (.attr (.var 1) .rq_sa) (.attr .self_ .slave_address),
+    .assign (.attr (.var 1) .cmdid) (.num 1),
+    -- one frame written, one `recvRaw cfg h 0 evs`; no retry loop: exceptions go to the caller
+    .expr (.call (.attr .self_ .u_send_raw) args[.var 1, .none]),
+    .expr (.call (.attr .self_ .u_receive_raw) args[.var 1]),
+    .ret .tt] }
 
 end Shape
 
